@@ -150,7 +150,7 @@ class MultiTaskBCD(BaseSolver):
                                 print("----------Linalg error")
 
                 if epoch > 0 and epoch % 10 == 0:
-                    p_obj = datafit.value(Y, W[ws, :], XW) + penalty.value(W)
+                    p_obj = datafit.value(Y, W, XW) + penalty.value(W[:n_features])
 
                     if is_sparse:
                         grad_ws = construct_grad_sparse(
